@@ -83,7 +83,7 @@ def handle_configuration_agreement(ctx):
                  "; ".join(bad) if bad else "encoding and newline are the constructor's", ctx.prog.loc(c))
 
 
-@rule("C04.R2", ["C04", "C05"], min_instances=3, design="3.4")
+@rule("C04.R2", ["C04", "C05", "C02", "C03"], min_instances=3, design="3.4")
 def dialect_agreement(ctx):
     """Every csv.reader / csv.writer is built on a storage handle with the storage's dialect kwargs."""
     cls = csv_cls(ctx)
@@ -109,6 +109,23 @@ def dialect_agreement(ctx):
                         bad.append(f"self.{kattr} is not the constructor's **kwargs")
                 yield Ob("C04.R2", ["C04", "C05"], f"{f.qual} | {norm(n.func)} dialect | {norm(n, 70)}", not bad,
                          "; ".join(bad) if bad else "storage handle + storage dialect", ctx.prog.loc(n))
+            # rows reach a storage file only through a csv writer (quoting/escaping) and are read only
+            # through a csv reader: raw text I/O on a storage handle bypasses the dialect
+            if isinstance(n, ast.Call) and isinstance(n.func, ast.Attribute) \
+                    and n.func.attr in ("write", "writelines", "read", "readline", "readlines"):
+                env = ctx.eff._role_env(f, list(walk_local(f.node)))
+                r = ctx.eff.expr_roles(n.func.value, roles, env)
+                if r & {"PRIMARY", "TEMP"}:
+                    yield Ob("C04.R2", ["C04", "C05", "C02", "C03"], f"{f.qual} | raw text I/O on a storage handle | {norm(n, 70)}{occ(f, n)}",
+                             False, f"`{norm(n, 60)}` moves row text without the csv dialect: delimiters, quotes and line "
+                             f"breaks inside values are not escaped / record boundaries are not csv's", ctx.prog.loc(n))
+            if isinstance(n, ast.Call) and isinstance(n.func, ast.Name) and n.func.id == "print":
+                fk = kw(n, "file")
+                if fk is not None:
+                    env = ctx.eff._role_env(f, list(walk_local(f.node)))
+                    if ctx.eff.expr_roles(fk, roles, env) & {"PRIMARY", "TEMP"}:
+                        yield Ob("C04.R2", ["C04", "C05", "C02", "C03"], f"{f.qual} | raw text I/O on a storage handle | {norm(n, 70)}{occ(f, n)}",
+                                 False, "print() into a storage handle bypasses the csv dialect", ctx.prog.loc(n))
 
 
 def _node_effects(ctx, g, f: Func, storage: Optional[str]) -> Dict[int, Set[str]]:
@@ -195,7 +212,7 @@ def _node_effects_const(ctx, g, f: Func, storage: str, consts: Dict[str, object]
     return out
 
 
-@rule("C04.R4", ["C04", "C16", "C12"], min_instances=2, design="3.4")
+@rule("C04.R4", ["C04", "C16", "C12", "C07", "C11", "C01"], min_instances=2, design="3.4")
 def appends_land_at_eof(ctx):
     """In CSVStorage.append, seek(0, SEEK_END) on the chosen handle dominates every write and the truncate."""
     cls = csv_cls(ctx)
@@ -219,7 +236,7 @@ def appends_land_at_eof(ctx):
         wrong = [i for i, es in ne.items() if any(e.endswith(".write") and not e.startswith(H) for e in es)]
         for w in wrong:
             bad.append(f"append(temporary={temporary}) writes `{norm(g.nodes[w].ast, 40)}` to the other handle")
-        yield Ob("C04.R4", ["C04", "C16", "C12"] if not temporary else ["C04"],
+        yield Ob("C04.R4", ["C04", "C16", "C12", "C07", "C11", "C01"] if not temporary else ["C04"],
                  f"{f.qual} | temporary={temporary} | writes at end of file", not bad,
                  "; ".join(bad[:3]) if bad else f"seek to EOF dominates {len(writes)} write/truncate node(s) on {H}",
                  f.loc())
@@ -399,6 +416,79 @@ def one_tokenizer(ctx):
 
 
 # ---------------------------------------------------------------------- C12
+def _is_sibling_of_primary(ctx, e: ast.AST, f, roles, env) -> bool:
+    """`f"{self._path}.swap"` / `self._path + ".new"`: the primary path followed by a separator-free suffix."""
+    if isinstance(e, ast.Name):
+        vals = assignments_to(f, e.id)
+        if len(vals) != 1:
+            return False
+        e = vals[0]
+    head, tail = None, []
+    if isinstance(e, ast.JoinedStr) and e.values:
+        first = e.values[0]
+        if isinstance(first, ast.FormattedValue):
+            head, tail = first.value, e.values[1:]
+    elif isinstance(e, ast.BinOp) and isinstance(e.op, ast.Add):
+        head, tail = e.left, [e.right]
+    if head is None or "PRIMARY_PATH" not in ctx.eff.expr_roles(head, roles, env):
+        return False
+    for t in tail:
+        v = const_value(t)
+        if not isinstance(v, str) or "/" in v or "\\" in v or not v:
+            return False
+    return bool(tail)
+
+
+@rule("C15.R4", ["C15"], min_instances=1, design="3.15")
+def no_third_file(ctx):
+    """Every file the storage creates is the primary, the tracked temporary file, or a staging file that is unlinked on every failing exit of the function that creates it."""
+    cls = csv_cls(ctx)
+    n = 0
+    for f in ctx.prog.methods_of(cls):
+        cls_ = ctx.res.self_class(f)
+        roles = ctx.eff.roles.get(cls_)
+        env = ctx.eff._role_env(f, list(walk_local(f.node)))
+        for c in walk_local(f.node):
+            if not isinstance(c, ast.Call):
+                continue
+            for e in ctx.eff.primitive(c, f, roles, env):
+                creates = None
+                if e.startswith("FS.copy(") or e.startswith("FS.replace("):
+                    dst = e[e.index("->") + 2:-1]
+                    n += 1
+                    if dst in ("PRIMARY_PATH", "PRIMARY", "TEMP_PATH", "TEMP"):
+                        yield Ob("C15.R4", ["C15"], f"{f.qual} | file created | {norm(c, 70)}{occ(f, c)}", True,
+                                 f"destination is the {dst.split('_')[0].lower()} file", ctx.prog.loc(c))
+                        continue
+                    if len(c.args) > 1 and _is_sibling_of_primary(ctx, c.args[1], f, roles, env) and dst in ("PRIMARY_PATH", "?"):
+                        creates = c.args[1]
+                    elif len(c.args) > 1:
+                        creates = c.args[1]
+                elif e.startswith("FS.open(") and e[len("FS.open("):-1].strip("'\"")[:1] in ("w", "a", "x"):
+                    n += 1
+                    creates = c.args[0] if c.args else None
+                if creates is None:
+                    continue
+                # a third file: it must be removed on every exceptional exit of this function
+                nm = norm(creates)
+                released = False
+                for t in ancestors(c):
+                    if isinstance(t, ast.Try):
+                        for blk in [t.finalbody] + [h.body for h in t.handlers if h.type is None or norm(h.type) in
+                                                    ("BaseException", "Exception", "OSError")]:
+                            for x in blk:
+                                for y in ast.walk(x):
+                                    if isinstance(y, ast.Call) and call_name(y) in ("remove", "unlink") and y.args \
+                                            and norm(y.args[0]) == nm:
+                                        released = True
+                yield Ob("C15.R4", ["C15"], f"{f.qual} | file created | {norm(c, 70)}{occ(f, c)}", released,
+                         f"staging file `{nm}` is unlinked by the enclosing handler/finally" if released else
+                         f"`{norm(c, 60)}` creates `{nm}`, which neither the temporary-store cleanup nor this function removes "
+                         f"when a later step fails: a stray file is left beside the database", ctx.prog.loc(c))
+    if n == 0:
+        raise AnalysisError("C15.R4", "no file-creating call found in the CSV storage (swap changed shape?)")
+
+
 @rule("C12.R1", ["C12", "C13", "C11"], min_instances=1, design="3.12")
 def atomic_publication(ctx):
     """New contents replace the primary file only by an atomic rename, never by copy-onto or open-for-truncation."""
@@ -415,8 +505,8 @@ def atomic_publication(ctx):
             for e in ctx.eff.primitive(c, f, roles, env):
                 if e.startswith("FS.copy(") and (e.endswith("->PRIMARY_PATH)") or e.endswith("->PRIMARY)")):
                     n += 1
-                    yield Ob("C12.R1", ["C12", "C13"], f"{f.qual} | publication | {norm(c, 70)}", False,
-                             "copies onto the primary path: the destination is truncated first and filled "
+                    yield Ob("C12.R1", ["C12", "C13"], f"{f.qual} | publication | copy onto the primary file", False,
+                             f"`{norm(c, 60)}` copies onto the primary path: the destination is truncated first and filled "
                              "afterwards, so a crash or I/O error in between leaves neither the old nor the new "
                              "contents", ctx.prog.loc(c))
                 elif e.startswith("FS.replace(") and e.endswith("->PRIMARY_PATH)"):
@@ -426,7 +516,9 @@ def atomic_publication(ctx):
                     for f2, c2, role in handle_ctors(ctx, cls):
                         if role == "TEMP" and kw(c2, "dir") is not None and "dirname" in norm(kw(c2, "dir")):
                             okdir = True
-                    yield Ob("C12.R1", ["C12", "C13", "C11"], f"{f.qual} | publication | {norm(c, 70)}", okdir,
+                    if c.args and _is_sibling_of_primary(ctx, c.args[0], f, roles, env):
+                        okdir = True  # staged next to the primary: `<primary path><suffix>`
+                    yield Ob("C12.R1", ["C12", "C13", "C11"], f"{f.qual} | publication | rename over the primary file", okdir,
                              "atomic rename from a temporary file in the primary's directory" if okdir else
                              "rename from a temporary file that is not created in the primary's directory "
                              "(cross-device rename is not atomic / fails)", ctx.prog.loc(c))
@@ -434,8 +526,8 @@ def atomic_publication(ctx):
                     mode = e[len("PRIMARY.open("):-1]
                     if mode.strip("'\"").startswith("w"):
                         n += 1
-                        yield Ob("C12.R1", ["C12", "C13"], f"{f.qual} | publication | {norm(c, 70)}", False,
-                                 "opens the primary path for truncation", ctx.prog.loc(c))
+                        yield Ob("C12.R1", ["C12", "C13"], f"{f.qual} | publication | open for truncation", False,
+                                 f"`{norm(c, 60)}` opens the primary path for truncation", ctx.prog.loc(c))
     if n == 0:
         raise AnalysisError("C12.R1", "no publication construct found (swap does not replace the primary file?)")
 
@@ -510,7 +602,7 @@ def durable_append_order(ctx):
 
 
 # -------------------------------------------------------------------- C15.R3
-@rule("C15.R3", ["C15", "C11", "C13", "C12"], min_instances=3, design="3.15")
+@rule("C15.R3", ["C15", "C11", "C13", "C12", "C02", "C03"], min_instances=3, design="3.15")
 def temp_store_pairing(ctx):
     """The temporary store is released (closed and unlinked) on every exit, normal or exceptional, of a temp_storage_op."""
     cls = csv_cls(ctx)
@@ -548,19 +640,10 @@ def temp_store_pairing(ctx):
         rets = [n for n in walk_local(cf.node) if isinstance(n, ast.Return)
                 and n.lineno < cc.lineno]
         ok_fresh = not cl and not rets
-        yield Ob("C15.R3", ["C15", "C12", "C11"], f"{cf.qual} | acquisition creates a fresh temporary file", ok_fresh,
+        yield Ob("C15.R3", ["C15", "C12", "C11", "C13", "C02", "C03"], f"{cf.qual} | acquisition creates a fresh temporary file", ok_fresh,
                  "a new temporary file is created unconditionally" if ok_fresh else
                  f"creation of the temporary file is conditional ({sorted(map(sorted, cl))[:2]} / early return): rows "
                  f"staged by an earlier, aborted operation are published by the next one", ctx.prog.loc(cc))
-    mc = mem_cls(ctx)
-    mi = ctx.prog.classes[mc].methods.get("_init_temp_storage")
-    if mi is not None:
-        tm = next(iter(ctx.eff.roles[mc].temp_mem), None)
-        fresh = [n for n in walk_local(mi.node) if isinstance(n, ast.Assign) and any(is_self_attr(t, tm) for t in n.targets)
-                 and isinstance(n.value, ast.List) and not n.value.elts]
-        ok_m = len(fresh) == 1 and not guard_clauses(guards(fresh[0]))
-        yield Ob("C15.R3", ["C15", "C11"], f"{mi.qual} | acquisition starts from an empty temporary list", ok_m,
-                 "temporary list rebound to []" if ok_m else "temporary memory is not reset unconditionally", mi.loc())
     # (b) the decorator releases on every exit
     dec = ctx.prog.func("temp_storage_op", "C15.R3")
     ops = ctx.prog.nested(dec)
@@ -572,9 +655,11 @@ def temp_store_pairing(ctx):
     if not inits:
         raise AnalysisError("C15.R3", "temp_storage_op does not acquire the temporary store")
     is_cleanup = lambda x: any(call_name(c) == "_cleanup_temp_storage" for c in x.calls())
+    released_always = True
     for i in inits:
         okn = g.postdominated(i.id, is_cleanup, [g.exit], first_labels=lambda l: l != "exc")
         oke = g.postdominated(i.id, is_cleanup, [g.rexit], first_labels=lambda l: l != "exc")
+        released_always = released_always and okn and oke
         yield Ob("C15.R3", ["C15"], f"{op.qual} | release on normal exit", okn,
                  "cleanup post-dominates acquisition on normal exits" if okn else
                  "a normal exit skips _cleanup_temp_storage", op.loc())
@@ -583,6 +668,30 @@ def temp_store_pairing(ctx):
                  "when the wrapped operation raises, the temporary store is neither closed nor removed "
                  "(no try/finally)", op.loc())
 
+    # (a3) memory twin: the temporary list is empty at every acquisition -- either the acquisition
+    # rebinds it, or every release does (and release is guaranteed on every exit, and the constructor
+    # starts it empty)
+    mc = mem_cls(ctx)
+    mi = ctx.prog.classes[mc].methods.get("_init_temp_storage")
+    if mi is not None:
+        tm = next(iter(ctx.eff.roles[mc].temp_mem), None)
+
+        def resets(fn):
+            if fn is None:
+                return False
+            fresh = [n for n in walk_local(fn.node) if isinstance(n, (ast.Assign, ast.AnnAssign))
+                     and any(is_self_attr(t, tm) for t in (n.targets if isinstance(n, ast.Assign) else [n.target]))
+                     and isinstance(n.value, ast.List) and not n.value.elts]
+            return len(fresh) >= 1 and all(not guard_clauses(guards(x)) for x in fresh)
+        by_init = resets(mi)
+        by_release = resets(ctx.prog.classes[mc].methods.get("_cleanup_temp_storage")) \
+            and resets(ctx.prog.classes[mc].methods.get("__init__")) and released_always
+        ok_m = by_init or by_release
+        yield Ob("C15.R3", ["C15", "C11", "C13", "C02", "C03"], f"{mi.qual} | acquisition starts from an empty temporary list", ok_m,
+                 ("temporary list rebound to []" if by_init else
+                  "every release rebinds the temporary list to [] and release is guaranteed on every exit") if ok_m else
+                 "temporary memory is not reset at acquisition, and release (which would reset it) is not guaranteed on "
+                 "every exit: rows staged by an aborted operation are published by the next one", mi.loc())
 
 # ---------------------------------------------------------------------- C16
 INSERT_ALLOWED = {
